@@ -72,6 +72,8 @@ type Run struct {
 	TransCounter string
 	EvalCounter  string
 	TraceCounter string
+	// StateCounter, when set, names a counter reported as states (schedule-tree nodes) instead of a set.
+	StateCounter string
 	// Floors: minimal values for named counters/sets; below => VACUOUS (exit 2).
 	Floors map[string]int64
 	Extra  map[string]interface{}
@@ -479,6 +481,9 @@ func (r *Run) Finish() {
 	cov["samples"] = r.p.Samples
 	if r.Level == "model_checking" {
 		cov["states"] = set(r.StateSet)
+		if r.StateCounter != "" {
+			cov["states"] = cnt(r.StateCounter)
+		}
 		cov["transitions"] = cnt(r.TransCounter)
 		tr := cnt(r.TraceCounter)
 		if tr == 0 {
@@ -530,8 +535,12 @@ func (r *Run) Finish() {
 	os.WriteFile(evp+".tmp", b, 0o644)
 	os.Rename(evp+".tmp", evp)
 
+	nstates := set(r.StateSet)
+	if r.StateCounter != "" {
+		nstates = cnt(r.StateCounter)
+	}
 	fmt.Printf("%s tier=%s evaluations=%d distinct=%d states=%d transitions=%d exhaustive=%v wall=%.1fs\n",
-		r.ID, r.Tier, evals, set(r.DistinctSet), set(r.StateSet), cnt(r.TransCounter), len(r.p.Capped) == 0, wall)
+		r.ID, r.Tier, evals, set(r.DistinctSet), nstates, cnt(r.TransCounter), len(r.p.Capped) == 0, wall)
 	var keys []string
 	for k := range r.p.Counters {
 		keys = append(keys, k)
